@@ -67,9 +67,16 @@ def gen_case(ctx, k, P):
         x0 = [Fraction(rng.choice([1e308, -1e308, 1e308, 0.0])) for _ in range(n)]; x0[rng.randrange(n)] = Fraction(1e308); xkind = "x0_overflow"
     maxit = rng.choice([3, 8, 30, 60] if n <= 60 else [3, 8, 25])
     cid = "s%d_p%d" % (k, P)
-    hist = [("SI", 0, 1, maxit)]
-    line = cc.case_line(cid, cls, opts, t, n, first_rows, [x0, b], hist, dump=0)
-    return dict(cid=cid, cls=cls, opts=opts, t=t, n=n, P=P, first_rows=first_rows, vecs=[x0, b], hist=hist, maxit=maxit,
+    # a hierarchy is solved with more than once: with some probability an earlier solve of another system (other b, other
+    # guess, other limit) runs first on the same object; the judged solve's history must be its own
+    vecs = [x0, b]; hist = [("SI", 0, 1, maxit)]; kop = 0
+    if rng.random() < 0.4:
+        bw = rvec(rng, n) if rng.random() < 0.7 else cc.matvec(t, rvec(rng, n), n)
+        if all(v == 0 for v in bw) and n: bw[0] = Fraction(1)
+        xw = rvec(rng, n) if rng.random() < 0.6 else [Fraction(0)] * n
+        vecs = [x0, b, xw, bw]; hist = [("S", 2, 3, rng.choice([1, 2, 5, 12, 40])), ("SI", 0, 1, maxit)]; kop = 1
+    line = cc.case_line(cid, cls, opts, t, n, first_rows, vecs, hist, dump=0)
+    return dict(cid=cid, cls=cls, opts=opts, t=t, n=n, P=P, first_rows=first_rows, vecs=vecs, hist=hist, maxit=maxit, kop=kop,
                 kind=kind, bkind=bkind, xkind=xkind, line=line)
 
 def ffloat(v):
@@ -108,15 +115,31 @@ def judge(ctx, c, res, model_lines):
             d[("XK", q)] = vals
         elif key == "NLEV": ctx.count("levels_%s" % (toks[0] if int(toks[0]) < 6 else "6+"))
     outs, bok, iters, ress, hok = cc.outs_of(res)
-    if 0 not in outs or 0 not in iters or 0 not in ress:
+    kop = c.get("kop", 0)
+    if any(k not in outs or k not in iters or k not in ress for k in range(kop + 1)):
         ctx.signal("O", sig0 + ":incomplete", "no complete output", case=c["line"]); return
-    it = iters[0]; maxit = c["maxit"]; rep = ress[0]; xfin = outs[0][1]
+    if kop: ctx.count("second_solve_on_same_hierarchy")
+    it = iters[kop]; maxit = c["maxit"]; rep = ress[kop]; xfin = outs[kop][1]
     tol = float(c["opts"]["tol"]) if c["cls"].startswith("par") else float(SEQ_TOL)
     rows = [[] for _ in range(n)]
     for (i, j), v in c["t"].items(): rows[i].append((j, float(v)))
     bf = [float(v) for v in c["vecs"][1]]; bnorm = fnorm(bf)
     relative = abs(bnorm) > 1e-16
     anorm = max(sum(abs(a) for _, a in row) for row in rows) if n else 0.0
+    if kop:
+        # the earlier solve is judged on what it returned: converged => small true residual, last reported entry = true residual
+        wit, wrep, wx = iters[0], ress[0], outs[0][1]; wmax = c["hist"][0][3]
+        bw = [float(v) for v in c["vecs"][3]]; bwn = fnorm(bw)
+        if cc.finite(wx) and len(wrep) == wit + 1 and bwn > 1e-16:
+            wt = ref_residual(rows, bw, [float(v) for v in wx]) / bwn
+            wsl = 64 * 2.2e-16 * (bwn + anorm * max([abs(float(v)) for v in wx] + [0.0]) * math.sqrt(max(n, 1))) / bwn
+            if wit < wmax and not (wt <= tol * (1 + 1e-6) + wsl):
+                ctx.signal("O", "solve:truth:" + c["cls"], "first solve returned %d < %d iterations but the recomputed relative residual is %.6g > tol %.3g" % (wit, wmax, wt, tol), case=c["line"])
+            r = wrep[wit]
+            if math.isfinite(wt) and (isinstance(r, str) or abs(ffloat(r) - wt) > 1e-6 * wt + wsl):
+                ctx.signal("O", sig0 + ":history", "first solve: last reported residual %s, recomputed %.9g" % (r if isinstance(r, str) else "%.9g" % ffloat(r), wt), case=c["line"])
+        elif wit < wmax and not cc.finite(wx):
+            ctx.signal("O", sig0 + ":truth:nonfinite", "first solve returned %d < %d iterations with a non-finite vector" % (wit, wmax), case=c["line"])
     iterates = [[float(v) for v in c["vecs"][0]]]
     complete = True
     for q in range(1, it + 1):
